@@ -37,6 +37,7 @@ import (
 	coreimport "github.com/yandex/pandora/core/import"
 	"github.com/yandex/pandora/zverif/hutil"
 	"go.uber.org/zap"
+	"go.uber.org/zap/zapcore"
 )
 
 var (
@@ -92,9 +93,19 @@ type wireReq struct {
 	Headers map[string]string
 	Body    string
 	TLS     bool
+	Tunnel  string // authority of the CONNECT request that opened the tunnel this request came through ("" = no tunnel)
 }
 
+// bufConn: a connection whose first bytes were already read into a bufio.Reader.
+type bufConn struct {
+	net.Conn
+	r *bufio.Reader
+}
+
+func (b *bufConn) Read(p []byte) (int, error) { return b.r.Read(p) }
+
 type recServer struct {
+	proxy    bool // answers CONNECT by tunnelling to itself (target of the connect gun)
 	respSize int
 	ln       net.Listener
 	tls      bool
@@ -151,10 +162,27 @@ func (s *recServer) serve(c net.Conn, id int) {
 	defer s.wg.Done()
 	defer c.Close()
 	br := bufio.NewReader(c)
+	tunnel := ""
+	inTLS := s.tls
 	for {
 		req, err := http.ReadRequest(br)
 		if err != nil {
 			return
+		}
+		if req.Method == "CONNECT" && s.proxy && tunnel == "" {
+			// act as the proxy of the connect gun: open a "tunnel" to ourselves; what follows on the connection
+			// is the tunnelled traffic, in TLS when the gun's ssl option is on (first byte of a handshake record)
+			tunnel = req.RequestURI
+			if _, err := c.Write([]byte("HTTP/1.1 200 OK\r\n\r\n")); err != nil {
+				return
+			}
+			if b, err := br.Peek(1); err == nil && b[0] == 0x16 {
+				tc := tls.Server(&bufConn{Conn: c, r: br}, &tls.Config{Certificates: []tls.Certificate{selfSigned()}, NextProtos: []string{"http/1.1"}})
+				c = tc
+				br = bufio.NewReader(tc)
+				inTLS = true
+			}
+			continue
 		}
 		body, _ := io.ReadAll(req.Body)
 		h := map[string]string{}
@@ -162,7 +190,7 @@ func (s *recServer) serve(c net.Conn, id int) {
 			h[k] = strings.Join(vv, ",")
 		}
 		s.mu.Lock()
-		s.reqs = append(s.reqs, wireReq{Conn: id, Method: req.Method, URI: req.RequestURI, Proto: req.Proto, Host: req.Host, Headers: h, Body: string(body), TLS: s.tls})
+		s.reqs = append(s.reqs, wireReq{Conn: id, Method: req.Method, URI: req.RequestURI, Proto: req.Proto, Host: req.Host, Headers: h, Body: string(body), TLS: inTLS, Tunnel: tunnel})
 		s.mu.Unlock()
 		s.mu.Lock()
 		size := s.respSize
@@ -199,10 +227,28 @@ type gunSet struct {
 
 var gunSets = map[string]*gunSet{}
 
+// answSink receives what the guns write to their answer log.
+type answBuf struct {
+	mu sync.Mutex
+	n  int
+	b  bytes.Buffer
+}
+
+func (a *answBuf) Write(p []byte) (int, error) {
+	a.mu.Lock()
+	defer a.mu.Unlock()
+	a.n++
+	a.b.Write(p)
+	return len(p), nil
+}
+func (a *answBuf) reset() { a.mu.Lock(); a.n = 0; a.b.Reset(); a.mu.Unlock() }
+
+var answSink answBuf
+
 // getGuns returns the worker's persistent guns for a gun configuration (guns can be bound only once;
 // with keep-alive their connections are reused from cell to cell, so a run opens few sockets).
 func getGuns(c C09Cell, addr string) (*gunSet, error) {
-	key := fmt.Sprintf("%s|%v|%v", c.Gun, c.SSL, c.NoKeep)
+	key := fmt.Sprintf("%s|%v|%v|%s", c.Gun, c.SSL, c.NoKeep, c.AnswLog)
 	if gs, ok := gunSets[key]; ok {
 		return gs, nil
 	}
@@ -214,6 +260,13 @@ func getGuns(c C09Cell, addr string) (*gunSet, error) {
 	gconf.TargetResolved = addr
 	gconf.SSL = c.SSL
 	gconf.Client.Transport.DisableKeepAlives = c.NoKeep
+	answLog := zap.NewNop()
+	if c.AnswLog != "" {
+		// as lib/answlog builds it, writing to memory instead of ./answ.log
+		gconf.AnswLog.Enabled = true
+		gconf.AnswLog.Filter = c.AnswLog
+		answLog = zap.New(zapcore.NewCore(zapcore.NewConsoleEncoder(zap.NewDevelopmentEncoderConfig()), zapcore.AddSync(&answSink), zapcore.DebugLevel))
+	}
 	gs := &gunSet{}
 	if c.Gun == "http-registry" {
 		_, port, _ := net.SplitHostPort(addr)
@@ -244,7 +297,10 @@ func getGuns(c C09Cell, addr string) (*gunSet, error) {
 		return gs, nil
 	}
 	for i := 0; i < 2; i++ {
-		g := phttp.NewHTTP1Gun(gconf, nil)
+		g := phttp.NewHTTP1Gun(gconf, answLog)
+		if c.Gun == "connect" {
+			g = phttp.NewConnectGun(gconf, answLog)
+		}
 		a := &recAgg{}
 		if err := g.Bind(a, gunDeps(i)); err != nil {
 			return nil, fmt.Errorf("HARNESS: bind: %v", err)
@@ -256,11 +312,15 @@ func getGuns(c C09Cell, addr string) (*gunSet, error) {
 	return gs, nil
 }
 
-var servers = map[bool]*recServer{}
+var servers = map[string]*recServer{}
 
 // getServer returns the worker's persistent recording server (one plain, one TLS), reset for a new cell.
-func getServer(useTLS bool) (*recServer, error) {
-	if s, ok := servers[useTLS]; ok {
+func getServer(useTLS, proxy bool) (*recServer, error) {
+	skey := fmt.Sprintf("tls=%v proxy=%v", useTLS, proxy)
+	if proxy {
+		useTLS = false // the proxy is reached in the clear; TLS, if any, is inside the tunnel
+	}
+	if s, ok := servers[skey]; ok {
 		s.mu.Lock()
 		s.reqs, s.conns = nil, 0
 		s.mu.Unlock()
@@ -270,7 +330,8 @@ func getServer(useTLS bool) (*recServer, error) {
 	var err error
 	for i := 0; i < 20; i++ {
 		if s, err = newRecServer(useTLS); err == nil {
-			servers[useTLS] = s
+			s.proxy = proxy
+			servers[skey] = s
 			return s, nil
 		}
 		time.Sleep(500 * time.Millisecond)
@@ -286,14 +347,15 @@ type C09Cell struct {
 	SSL       bool     `json:"ssl"`
 	NoKeep    bool     `json:"no_keepalive"`
 	Instances int      `json:"instances"`
-	Gun       string   `json:"gun"`                 // http | connect
+	Gun       string   `json:"gun"`                 // http | http-registry | connect
+	AnswLog   string   `json:"answlog,omitempty"`   // answlog filter (all | warning | error); "" = answer log off
 	RespSize  int      `json:"resp_size,omitempty"` // size of the target's response body (0: 2 bytes)
 	Passes    int      `json:"passes,omitempty"`    // 0: one pass
 	Preload   bool     `json:"preload,omitempty"`
 }
 
 func (c C09Cell) Name() string {
-	return fmt.Sprintf("%s|option=%v|ssl=%v|nokeep=%v|instances=%d|gun=%s|resp=%d|passes=%d|preload=%v", c.File.Name(), c.Option, c.SSL, c.NoKeep, c.Instances, c.Gun, c.RespSize, c.Passes, c.Preload)
+	return fmt.Sprintf("%s|option=%v|ssl=%v|nokeep=%v|instances=%d|gun=%s|resp=%d|passes=%d|preload=%v", c.File.Name(), c.Option, c.SSL, c.NoKeep, c.Instances, c.Gun, c.RespSize, c.Passes, c.Preload) + map[bool]string{true: "|answlog=" + c.AnswLog}[c.AnswLog != ""]
 }
 
 var formatType = map[string]string{"uri": "uri", "uripost": "uripost", "raw": "raw", "jsonline": "http/json"}
@@ -342,7 +404,7 @@ func runC09Cell(c C09Cell) (verr error) {
 			verr = fmt.Errorf("PANIC: %v", r)
 		}
 	}()
-	srv, err := getServer(c.SSL)
+	srv, err := getServer(c.SSL, c.Gun == "connect")
 	if err != nil {
 		return fmt.Errorf("HARNESS: listen: %v", err)
 	}
@@ -384,6 +446,7 @@ func runC09Cell(c C09Cell) (verr error) {
 	for _, a := range aggs {
 		a.samples = nil
 	}
+	answSink.reset()
 	var wg sync.WaitGroup
 	var pmu sync.Mutex
 	var panics []string
@@ -464,6 +527,12 @@ func runC09Cell(c C09Cell) (verr error) {
 		gotW[i] = norm(r)
 		if r.TLS != c.SSL {
 			return fmt.Errorf("SCHEME: request arrived with tls=%v, ssl option is %v", r.TLS, c.SSL)
+		}
+		if c.Gun == "connect" && r.Tunnel != addr {
+			return fmt.Errorf("TUNNEL: request %d of the connect gun arrived through a tunnel to %q, the target is %q", i, r.Tunnel, addr)
+		}
+		if c.Gun != "connect" && r.Tunnel != "" {
+			return fmt.Errorf("TUNNEL: request %d arrived through a CONNECT tunnel to %q although the gun is %s", i, r.Tunnel, c.Gun)
 		}
 	}
 	wantW := make([]Want, len(want))
@@ -588,6 +657,21 @@ func runC09(spec *hutil.Spec, out *hutil.Out) {
 									pre bool
 								}{{2, false}, {1, true}, {3, true}} {
 									cells = append(cells, C09Cell{File: f, Option: opt, Instances: inst, Gun: "http", Passes: pp.n, Preload: pp.pre})
+								}
+							}
+							if oi < 3 {
+								// the connect gun: the same requests through a CONNECT tunnel opened at the target
+								cells = append(cells, C09Cell{File: f, Option: opt, SSL: ssl, NoKeep: nk, Instances: inst, Gun: "connect"})
+							}
+							if !nk && oi < 2 && (inst == 1 || !ssl) {
+								// answer log switched on (every filter): logging a request must not change what is sent
+								for fi, flt := range []string{"all", "warning", "error"} {
+									if fi == 0 || (idx+fi)%3 == 0 {
+										cells = append(cells, C09Cell{File: f, Option: opt, SSL: ssl, Instances: inst, Gun: "http", AnswLog: flt})
+									}
+								}
+								if !ssl && inst == 1 {
+									cells = append(cells, C09Cell{File: f, Option: opt, Instances: 1, Gun: "connect", AnswLog: "all"})
 								}
 							}
 							if !nk && inst == 1 && oi < 2 && entries(f.Items) == 1 {
